@@ -24,6 +24,7 @@ func controlsC17() []Control {
 		return p.FuncDecl(f), nil
 	}
 	return []Control{
+		{Name: "table registered in a copy of the manager (value receiver)", Expect: "G4", Mutate: replaceIn("(*manager).CreateTable", "func (m *manager) CreateTable(", "func (m manager) CreateTable(", 0)},
 		{Name: "forward PlayerFold to PlayerCheck", Expect: "F3", Mutate: func(p *Prog) (string, []byte, error) {
 			fd, err := mgr(p, "PlayerFold")
 			if err != nil {
